@@ -3,6 +3,8 @@ objects."""
 import copy
 import warnings
 
+import sys
+
 import numpy as np
 
 from .. import common, gen_all, curves, fits, m1
@@ -771,5 +773,5 @@ def replay(rec):
     elif kind in ("array", "fitk"):
         array_arguments(R())
     else:
-        return True
+        return common.replay_by_rerun(sys.modules[__name__], rec)
     return not R.bad
